@@ -106,10 +106,23 @@ def coq_project_files():
     return out
 
 
+def closure_files():
+    """The files the property theorems depend on (Properties/*.v, the case files the checks evaluate, and everything
+    they require, in dependency order), computed by coqdep.  Files under theories/ that nothing claimed depends on (work in
+    progress) are neither built by `make setup` nor subject to the hygiene scan -- and prove nothing."""
+    roots = sorted(f for f in coq_project_files() if f.startswith('theories/Properties/') or f.endswith('Cases.v'))
+    rc, out = _run(['coqdep', '-Q', 'theories', 'PV', '-sort'] + roots, cwd=COQ)
+    files = [x for x in out.split() if x.endswith('.v')]
+    files = [os.path.normpath(x) for x in files]
+    if rc != 0 or not files:
+        return coq_project_files()
+    return files
+
+
 def hygiene():
     """grep the development for anything that would declare an axiom or switch off a check."""
     bad = []
-    for rel in coq_project_files():
+    for rel in closure_files():
         with open(os.path.join(COQ, rel)) as fp:
             txt = fp.read()
         # strip comments (non-nested is enough: we do not write nested comments with keywords)
